@@ -571,6 +571,7 @@ def run(ctx):
     ctx.attempt(check_affine_algebra, ctx, db)
     from . import C08   # RobustPath keeps its transform as a matrix: the matrix methods are C08's obligations, shared
     ctx.attempt(C08.check_trafo_algebra, ctx, db)
+    ctx.attempt(C08.check_unscaled_bookkeeping, ctx, db)   # a scaled robust path must be outlined with scaled widths: the unscaled builder memory is not read
     # Repetition::transform (C10.5) — same obligations as C11
     ctx.attempt(C11.check_transform, ctx, db)
     ctx.attempt(C11.check_transform_algebra, ctx, db)
